@@ -69,6 +69,35 @@ func VerifC06Tokens() {
 	frontEnd(text, s)
 }
 
+var c06Prefixes = [...]string{"for i <-", "for i, j <- a,", "for i <- a {\n", "for i <- f(1,", "if x", "if x 1 else", "while x", "f = (a) ->", "f = (a, b) -> {\n",
+	"{\n x = 1\n", "[1,", "f(", "x[1:", "x =", "return", "yield", "1 +", "a[1] ==", "!", "(a) -> a,"}
+
+// VerifC06Continuations: a valid beginning of every statement form, at top level, after a
+// complete statement or as the body of a loop, continued by up to 2 arbitrary tokens: syntax
+// errors deep inside a construct are reported like any other.
+func VerifC06Continuations() {
+	text := c06Prefixes[vrt.Choice("prefix", len(c06Prefixes))]
+	switch vrt.Choice("outer", 4) {
+	case 1:
+		text = "1\n" + text
+	case 2:
+		text = "for k <- a " + text
+	case 3:
+		text = "1 " + text
+	}
+	nv := vrt.Param("vocab", len(c06Vocab))
+	for i := vrt.Choice("tokens", 3); i > 0; i-- {
+		text += " " + c06Vocab[vrt.Choice("tok", nv)]
+	}
+	vrt.Note("text", text)
+	vrt.Fuel(vrt.Param("fuel", 3000000))
+	var s *Session
+	if vrt.Param("session", 0) == 1 {
+		s = New()
+	}
+	frontEnd(text, s)
+}
+
 // VerifC06Literals: number literals of any length (digits symbolic).
 func VerifC06Literals() {
 	lens := [...]int{1, 2, 18, 19, 20, 25}
